@@ -14,13 +14,37 @@ from ..symbytes import _items_of, mkbytes
 class Queue:
     def __init__(self, maxsize=0):
         self._q = []
+        self._cond = None
+
+    def _sc(self):
+        s = ENV.sched
+        if s is None:
+            return None
+        if self._cond is None or self._cond.s is not s:
+            from ..sched import SCondition
+            self._cond = SCondition(s)
+        return self._cond
 
     def put(self, item, block=True, timeout=None):
+        c = self._sc()
+        if c is not None:
+            with c:
+                self._q.append(item)
+                c.notify_all()
+            return
         self._q.append(item)
 
     put_nowait = put
 
     def get(self, block=True, timeout=None):
+        c = self._sc()
+        if c is not None:
+            with c:
+                if not self._q and block:
+                    c.wait(timeout)          # woken by a put() of another thread, or timed out
+                if not self._q:
+                    raise _rqueue.Empty()
+                return self._q.pop(0)
         if not self._q and block:
             ENV.run_hook("queue", self)
         if not self._q:
@@ -62,22 +86,50 @@ time_model = types.SimpleNamespace(time=_time, monotonic=_time, perf_counter=_ti
 
 # ---- threading -----------------------------------------------------------------------------
 class Condition:
+    """Without a scheduler: a waiter observes either a delivery made by the delivery hook during the wait or
+    a time-out.  With a scheduler (symx.sched) installed: real lock / wait / notify semantics with every
+    schedule at synchronisation-point granularity explored."""
+
     def __init__(self, lock=None):
         self.notified = 0
+        self._sc = None
+
+    def _impl(self):
+        s = ENV.sched
+        if s is None:
+            return None
+        if self._sc is None or self._sc.s is not s:
+            from ..sched import SCondition
+            self._sc = SCondition(s)
+        return self._sc
 
     def __enter__(self):
+        i = self._impl()
+        if i is not None:
+            i.__enter__()
         return self
 
     def __exit__(self, *a):
+        i = self._impl()
+        if i is not None:
+            i.__exit__(*a)
         return False
 
     def acquire(self, *a, **k):
+        i = self._impl()
+        if i is not None:
+            i.lock.acquire()
         return True
 
     def release(self):
-        pass
+        i = self._impl()
+        if i is not None:
+            i.lock.release()
 
     def wait(self, timeout=None):
+        i = self._impl()
+        if i is not None:
+            return i.wait(timeout)
         before = self.notified
         ENV.run_hook("condition", self)
         if self.notified != before:
@@ -93,26 +145,52 @@ class Condition:
 
     def notify(self, n=1):
         self.notified += 1
+        i = self._impl()
+        if i is not None:
+            i.notify(n)
 
     def notify_all(self):
         self.notified += 1
+        i = self._impl()
+        if i is not None:
+            i.notify_all()
 
 
 class Lock:
+    def __init__(self):
+        self._sl = None
+
+    def _impl(self):
+        s = ENV.sched
+        if s is None:
+            return None
+        if self._sl is None or self._sl.s is not s:
+            from ..sched import SLock
+            self._sl = SLock(s)
+        return self._sl
+
     def __enter__(self):
+        self.acquire()
         return self
 
     def __exit__(self, *a):
+        self.release()
         return False
 
     def acquire(self, *a, **k):
+        i = self._impl()
+        if i is not None:
+            i.acquire()
         return True
 
     def release(self):
-        pass
+        i = self._impl()
+        if i is not None:
+            i.release()
 
     def locked(self):
-        return False
+        i = self._impl()
+        return bool(i is not None and i.owner is not None)
 
 
 threading_model = types.SimpleNamespace(Condition=Condition, Lock=Lock, RLock=Lock,
